@@ -68,7 +68,8 @@ def _run(level, cfg, events, var, perm):
     # the decorator and the Policy wrappers go through Policy.call, which classifies the raised
     # exception once more
     wrapped = var.get("entry2") or var["entry"].split(".")[0] in ("Policy", "AsyncPolicy", "RetryPolicy",
-                                                                   "AsyncRetryPolicy")
+                                                                   "AsyncRetryPolicy", "decorator",
+                                                                   "async-decorator")
     return drop_bclassify(obs) if wrapped else obs
 
 
@@ -279,11 +280,18 @@ WRAPPED = [{"entry": "Policy", "place": "call", "every": 2},
            {"entry": "AsyncRetryPolicy", "place": "ctor", "async_callbacks": True, "every": 2, "permute": True},
            {"entry": "AsyncPolicy", "place": "both", "async_callbacks": "lambda", "every": 2}]
 
+# handler / before_sleep / sleeper bound through the context managers (every 2nd behaviour)
+CONTEXTS = [{"entry": "AsyncPolicy.context", "place": "call", "async_callbacks": True, "every": 2},
+            {"entry": "Policy.context", "place": "call", "every": 2},
+            {"entry": "AsyncRetry.context", "place": "both", "async_callbacks": "lambda", "every": 2},
+            {"entry": "RetryPolicy.context", "place": "both", "every": 2}]
+
 for _p in ("C01", "C02", "C03", "C04", "C05", "C10", "C11", "C13", "C14", "C16"):
     profile(_p, mc=f"RetryMC_{_p}.cfg", export=f"RetryMC_{_p}x.cfg",
             variants=WALL + TIMEOUT_SAMPLED if _p == "C02" else (FOUR + TIMEOUT_VARIANTS if _p in ("C13", "C01") else
                                                (FOUR[:3] + SHARED if _p == "C10" else
-                                                (FOUR + WRAPPED if _p in ("C11", "C04") else FOUR))),
+                                                (FOUR + WRAPPED if _p in ("C11", "C04") else
+                                                 (FOUR + CONTEXTS if _p == "C16" else FOUR)))),
             n_random={"quick": 1500, "thorough": 30000},
             exports_extra={"C10": ["RetryMC_C10y.cfg"], "C05": ["RetryMC_C05y.cfg"]}.get(_p, []))
 
